@@ -31,7 +31,8 @@ Definition normalize_dim_z (d : Z) : option nat :=
   let d' := if (d <? 0)%Z then (d + 3)%Z else d in
   if (d' =? 0)%Z then Some 0 else if (d' =? 1)%Z then Some 1 else None.
 
-Inductive step := SSel (dim : nat) (ix : index) | SSelZ (dim : Z) (ix : index) | SPair (i j : index).
+Inductive step := SSel (dim : nat) (ix : index) | SSelZ (dim : Z) (ix : index) | SPair (i j : index)
+  | SNarrow (dim start len : Z).   (* t.narrow(dim, start, length) called directly *)
 Inductive obs := OErr | OVal (v : cell) | OCells (r c : nat) (m : list (list cell)) | OUnreadable.
 
 Definition obs_step_eqb (a b : obs) : bool :=
@@ -56,6 +57,14 @@ Section Run.
     | None => OUnreadable
     end.
 
+  (* narrow(dim, start, length) as a public method: `assert start >= 0`, then _normalize_dim *)
+  Definition narrow_z (t : T) (dz start len : Z) : option T :=
+    if (start <? 0)%Z then None
+    else match normalize_dim_z dz with
+         | Some d => narrow _ _ K t d (Z.to_nat start) len
+         | None => None
+         end.
+
   Fixpoint run_prog (t : T) (p : list step) : list obs :=
     match p with
     | [] => []
@@ -71,6 +80,11 @@ Section Run.
             | Some t' => observe t' :: run_prog t' rest
             | None => [OErr]
             end
+        | None => [OErr]
+        end
+    | SNarrow dz start len :: rest =>
+        match narrow_z t dz start len with
+        | Some t' => observe t' :: run_prog t' rest
         | None => [OErr]
         end
     | SPair i j :: rest =>
